@@ -155,6 +155,9 @@ func (server *GripServer) addFullGraph(ctx context.Context, graphName string, sc
 	if graphName == "" {
 		return fmt.Errorf("graph name is an empty string")
 	}
+	//delete, create and fill as one step: two uploads for one graph must not mix
+	server.fullGraphLock.Lock()
+	defer server.fullGraphLock.Unlock()
 	if server.graphExists(graphName) {
 		_, err := server.DeleteGraph(ctx, &gripql.GraphID{Graph: graphName})
 		if err != nil {
